@@ -23,7 +23,8 @@ LEVEL = "exploration"
 RULE = ("set part: case = coalition (all, n=1..10) or ordered pair (all, n<=6; sampled n=7..10): size, players, "
         "complement, membership (Python ints and coalitions), from_players, +/- player, union, intersection, "
         "difference, subset test, disjointness, exclude filter, sub-/super-coalition enumeration in the object-based and "
-        "the id-array implementation, all compared with frozenset semantics and with each other. predicate part: case = "
+        "the id-array implementation, all compared with frozenset semantics and with each other; plus 3000 random coalitions and "
+        "pairs over 11..30 players per shard for the per-coalition operations (no enumeration). predicate part: case = "
         "game: every integer game over {-1,0,1,2} with v(empty)=0 for n=2 (64) and n=3 (16384, exhaustive, sharded), "
         "random integer/float games n=4,5, and boundary games violating exactly one inequality by one unit / by half / "
         "by twice the documented tolerance (rtol 1e-9 for superadditivity, 1e-10 absolute for supermodularity); "
@@ -31,7 +32,7 @@ RULE = ("set part: case = coalition (all, n=1..10) or ordered pair (all, n<=6; s
         "hash(case); non-trivial: always for sets; predicate cases split by expected answer in the counters.")
 SHARDS = {"quick": 4, "thorough": 16}
 BUDGET = {"quick": 45, "thorough": 360}
-REQUIRED = ["coalitions_checked", "pairs_checked", "enumerations_compared", "predicate_games", "boundary_games",
+REQUIRED = ["coalitions_checked", "pairs_checked", "enumerations_compared", "predicate_games", "boundary_games", "large_id_coalitions",
             "expected_true", "expected_false"]
 
 
@@ -104,6 +105,41 @@ def check_pair(ctx, n, a, b) -> None:
     if disjoint_coalitions(A, B) != sa.isdisjoint(sb):
         bad("disjointness-wrong", f"disjoint_coalitions -> {disjoint_coalitions(A, B)}")
     ctx.case(("p", n, a, b), True)
+
+
+def check_large_one(ctx, n: int, a: int, b: int, p: int) -> None:
+    """One pair of coalitions over up to 30 players (ids beyond 16 bits): per-coalition operations only."""
+    A, B = Coalition(a), Coalition(b)
+    sa, sb = fset(a), fset(b)
+    case = {"kind": "large", "n": n, "a": a, "b": b, "p": p}
+    ctx.count("large_id_coalitions")
+
+    def bad(mech, msg):
+        ctx.violation(mech, f"A={a:#x}, B={b:#x} (n={n}): {msg}", case)
+    if len(A) != len(sa) or int(cid.get_size(a, n)) != len(sa):
+        bad("size-wrong", f"len {len(A)}, id-array size {cid.get_size(a, n)}, set size {len(sa)}")
+    if sorted(A.players) != sorted(sa) or sorted(int(x) for x in cid.players(a, n)) != sorted(sa):
+        bad("players-wrong", "players differ from the bit positions")
+    if Coalition.from_players(sorted(sa)).id != a:
+        bad("from-players-wrong", "from_players(players) does not give the coalition back")
+    if A.inverted(n).id != ((1 << n) - 1) ^ a:
+        bad("complement-wrong", f"inverted -> {A.inverted(n).id:#x}")
+    if (A | B).id != a | b or (A & B).id != a & b or (A - B).id != a & ~b:
+        bad("union-wrong" if (A | B).id != a | b else "intersection-wrong" if (A & B).id != a & b else "difference-wrong", "operator result")
+    if (B in A) != (sb <= sa) or disjoint_coalitions(A, B) != sa.isdisjoint(sb) or (A == B) != (a == b):
+        bad("subset-test-wrong", "subset / disjointness / equality")
+    if (p in A) != (p in sa) or (A + p).id != a | (1 << p) or (A - p).id != a & ~(1 << p):
+        bad("membership-wrong", f"player {p}")
+    ctx.case(("L", n, a, b), True)
+
+
+def check_large_ids(ctx, rng, count: int) -> None:
+    for _ in range(count):
+        n = rng.randint(11, 30)
+        a, b = rng.getrandbits(n), rng.getrandbits(n)
+        if rng.random() < 0.3:
+            a |= 1 << (n - 1)
+        check_large_one(ctx, n, a, b, rng.randrange(n))
 
 
 def check_collections(ctx, n) -> None:
@@ -243,6 +279,7 @@ def run(ctx) -> None:
     for _ in range(2000):
         n = rng.choice([7, 8, 9, 10])
         check_pair(ctx, n, rng.randrange(1 << n), rng.randrange(1 << n))
+    check_large_ids(ctx, rng, 3000)
     # predicates: exhaustive small integer games
     vals = (-1.0, 0.0, 1.0, 2.0)
     for code in range(4 ** 3):
@@ -275,6 +312,9 @@ def run(ctx) -> None:
 
 
 def replay(ctx, case) -> None:
+    if case["kind"] == "large":
+        check_large_one(ctx, case["n"], case["a"], case["b"], case.get("p", 0))
+        return
     if case["kind"] == "coalition":
         check_coalition(ctx, case["n"], case["mask"])
     elif case["kind"] == "pair":
